@@ -1360,6 +1360,8 @@ package dig
 //@   ensures[C12:looking-for-the-decorated-keys-changes-nothing,C06:looking-for-the-decorated-keys-changes-nothing] unchangedAll()
 //@   loop for len(q) > 0 #1: invariant (cap(keys) == 0 || fresh(keys)) && (cap(q) == 0 || fresh(q)) && unchangedAll()
 //@   loop range innerResult.Fields #1: invariant (cap(q) == 0 || fresh(q)) && unchangedAll()
+//@   loop range innerResult.Fields #1: invariant[C12:every-field-of-a-decorators-result-object-joins-the-search,C15:every-field-of-a-decorators-result-object-joins-the-search] len(q) >= $i && (forall j int :: 0 <= j && j < $i ==> q[len(q) - $i + j] == innerResult.Fields[j].Result)
+//@   loop range innerResult.Fields #1: complete[C12:every-field-of-a-decorators-result-object-is-searched,C15:every-field-of-a-decorators-result-object-is-searched]
 
 //@ func (s *Scope) Decorate(decorator, opts) (err)
 //@   loop range keys #2: complete[C12:registered-for-every-key]
